@@ -21,6 +21,7 @@ import (
 	"sync"
 	"testing"
 	"time"
+	"verifharness/internal/netx"
 
 	"golang.org/x/crypto/argon2"
 	"pgregory.net/rapid"
@@ -100,7 +101,8 @@ func TestMain(m *testing.M) {
 		fmt.Println("RegisterHandlers:", err)
 		os.Exit(2)
 	}
-	srv = httptest.NewServer(middleware.Harden(mux))
+	srv = netx.Server(middleware.Harden(mux))
+	srv.Start()
 	srv.Config.ErrorLog = nil
 	routes = routesFromSource()
 	ev.Main(m, "C20")
